@@ -1624,7 +1624,8 @@ def check_request_layers(rep, rule, rule_identity=None):
             lit = ls[i_lit]
             want = {'_route': 'self', 'request': 'request', '_application': 'self.bound_apps[-1]'}
             want.update((k, k) for k in extra)
-            got = dict((k, norm(val)) for k, val in lit.values.items())
+            got = dict((k, norm(_deref(fi, val) if isinstance(val, ast.Name) and val.id not in fi.params() else val))
+                       for k, val in lit.values.items())
             ok = got == want
             rep.check(rule, fkey(fi, 'built-in values'), ok, 'each built-in name is bound to the object it names: %s' % got if ok else
                       'built-in injectables are mis-bound: %s (expected %s)' % (got, want), route, lit.node)
@@ -1656,9 +1657,12 @@ def check_request_layers(rep, rule, rule_identity=None):
                 flat.extend(sub)
                 continue
         flat.append(l)
+    # the URL parameters: the local(s) bound to the result of <route>.match_path(...)
+    path_vars = [norm(s_.targets[0]) for s_ in stmts_of(fi.node) if isinstance(s_, ast.Assign) and isinstance(s_.value, ast.Call)
+                 and norm(s_.value.func).endswith('.match_path') and isinstance(s_.targets[0], ast.Name)]
     i_res = index_of(flat, lambda l: l.text == 'self.resources')
     i_lit = index_of(flat, lambda l: l.kind == 'literal')
-    i_path = index_of(flat, lambda l: l.text == 'path_params')
+    i_path = index_of(flat, lambda l: l.text in path_vars)
     ok = None not in (i_res, i_lit, i_path) and i_res < i_lit < i_path and len(flat) == 3
     rep.check(rule, fkey(fi, 'layers'), ok,
               "serving application's resources < {request, _application, _dispatch_state} < URL parameters: %s" % [l.text for l in flat] if ok else
@@ -1710,7 +1714,8 @@ def check_request_layers(rep, rule, rule_identity=None):
                   'no parameter dict built before the loop is mutated inside it' if not leaks else
                   'a dict built once per request (%s) is mutated inside the route loop: one route\'s parameters are still there for the next'
                   % sorted(set(e.root for e in leaks)), app, leaks[0].node if leaks else lp)
-    pp = [s for s in stmts_of(fi.node) if isinstance(s, ast.Assign) and norm(s.targets[0]) == 'path_params']
+    top_name = flat[i_path].text if i_path is not None else None
+    pp = [s for s in stmts_of(fi.node) if isinstance(s, ast.Assign) and top_name is not None and norm(s.targets[0]) == top_name]
     ok = len(pp) == 1 and isinstance(pp[0].value, ast.Call) and norm(pp[0].value.func).endswith('.match_path')
     rep.check(rule, fkey(fi, 'path_params source'), ok, 'URL parameters are the converted values returned by route.match_path' if ok else
               'path_params is not the result of route.match_path', app, pp[0] if pp else fi.node)
@@ -1726,7 +1731,16 @@ def check_request_layers(rep, rule, rule_identity=None):
                 continue
         flat.append((l.text, l))
     texts = [t for t, _ in flat]
-    ok = len(texts) == 2 and 'app' in texts[0] and 'resources' in texts[0] and 'route' in texts[1] and 'resources' in texts[1]
+    bps = bi.params()     # self, route, app
+
+    def res_of(t, who):
+        while t.startswith('dict(') and t.endswith(')'):
+            t = t[5:-1]            # a shallow copy of the mapping holds the same values
+        if t.endswith('.copy()'):
+            t = t[:-7]
+        return t in ('%s.resources' % who, "getattr(%s, 'resources', {})" % who, "getattr(%s, 'resources', None) or {}" % who,
+                     '%s.resources or {}' % who)
+    ok = len(texts) == 2 and len(bps) >= 3 and res_of(texts[0], bps[2]) and res_of(texts[1], bps[1])
     rep.check(rule, fkey(bi, 'resource layers'), ok, 'bind time: application resources < route resources: %s' % texts if ok else
               'BoundRoute resources are not layered app < route: %s' % texts, route, bi.node)
     if rule_identity:
